@@ -151,15 +151,19 @@ func c18Worker(sh *explore.Shard) {
 		}
 		_ = b
 		outcomes := map[string]bool{}
-		ex := &verifsched.Explorer{Body: body, Cfg: verifsched.Sched{TicksPerTicker: ticks}, Bound: bound, ShardI: sh.I, ShardN: sh.N,
-			Stop: sh.Expired,
-			Check: func(x *verifsched.Sched) string {
-				outcomes[strings.Join(w.frames, "|")] = true
-				return c18Oracle(w.frames, incs)
-			}}
-		if sh.Only >= 0 {
-			ex.ShardI, ex.ShardN = 0, 1
+		mkEx := func(preemption bool, b int) *verifsched.Explorer {
+			ex := &verifsched.Explorer{Body: body, Cfg: verifsched.Sched{TicksPerTicker: ticks}, Bound: b, Preemption: preemption, ShardI: sh.I, ShardN: sh.N,
+				Stop: sh.Expired,
+				Check: func(x *verifsched.Sched) string {
+					outcomes[strings.Join(w.frames, "|")] = true
+					return c18Oracle(w.frames, incs)
+				}}
+			if sh.Only >= 0 {
+				ex.ShardI, ex.ShardN = 0, 1
+			}
+			return ex
 		}
+		ex := mkEx(false, bound)
 		ex.Run()
 		sh.C.Evals += ex.Executions
 		sh.C.Nontrivial += ex.Executions
